@@ -635,7 +635,8 @@ Inductive cres :=
 | CErr | COkUnit
 | COkList (mb : str) (l : list view)
 | COkMsg (mb : str) (v : view)
-| COkSrc (v : view).
+| COkSrc (v : view)
+| COkRaw.   (* GetMessageSource hands back the body of ANY 200 answer: here one that is not a message source *)
 
 Definition s_prefix : str := [47; 97; 112; 105; 47; 118; 49; 47; 109; 97; 105; 108; 98; 111; 120; 47].
 
@@ -667,6 +668,7 @@ Definition c_src cbase st name id : spec_store * cres :=
   let '(st', r) := client_send cbase st GET (client_uri name [id; s_source]) BBad in
   match r with
   | (S200, PSrc v) => (st', COkSrc v)
+  | (S200, _) => (st', COkRaw)
   | _ => (st', CErr)
   end.
 
